@@ -15,6 +15,7 @@ pub mod c12;
 pub mod c13;
 pub mod c14;
 pub mod c15;
+pub mod c16;
 pub mod common;
 
 #[derive(Clone, Copy, Debug, PartialEq, Eq)]
@@ -56,6 +57,7 @@ pub fn make(prop: &str, flavour: &str) -> Option<Box<dyn Monitor>> {
         "C13" => Some(Box::new(c13::C13::new())),
         "C14" => Some(Box::new(c14::C14::new())),
         "C15" => Some(Box::new(c15::C15::new())),
+        "C16" => Some(Box::new(c16::C16::new(flavour))),
         _ => None,
     }
 }
